@@ -442,9 +442,58 @@ def _lazy_iter_loops(block):
                 out.append(get)
             i += 1
             continue
+        upd = _update_to_loop(st)
+        if upd is not None:
+            out.append(upd)
+            i += 1
+            continue
         out.append(st)
         i += 1
     return out
+
+
+def _update_to_loop(st):
+    """D.update(dict.fromkeys(S, c))            ->  for k in S: D[k] = c
+       D.update({K: V for t in S})              ->  for t in S: D[K] = V
+       D.update((K, V) for t in S [if c])       ->  for t in S: [if c:] D[K] = V"""
+    if not (isinstance(st, ast.Expr) and isinstance(st.value, ast.Call)
+            and isinstance(st.value.func, ast.Attribute) and st.value.func.attr == "update"
+            and len(st.value.args) == 1 and not st.value.keywords
+            and _simple_arg(st.value.func.value)):
+        return None
+    D, arg = st.value.func.value, st.value.args[0]
+    target = seq = key = val = None
+    ifs = []
+    if isinstance(arg, ast.Call) and _unparse(arg.func) == "dict.fromkeys" \
+            and 1 <= len(arg.args) <= 2 and not arg.keywords \
+            and (len(arg.args) == 1 or isinstance(arg.args[1], ast.Constant)):
+        kname = f"key__u{next(_counter)}"
+        target = ast.Name(id=kname, ctx=ast.Store())
+        seq = arg.args[0]
+        key = ast.Name(id=kname, ctx=ast.Load())
+        val = arg.args[1] if len(arg.args) == 2 else ast.Constant(None)
+    elif isinstance(arg, ast.DictComp) and len(arg.generators) == 1:
+        g = arg.generators[0]
+        target, seq, key, val, ifs = g.target, g.iter, arg.key, arg.value, g.ifs
+    elif isinstance(arg, ast.GeneratorExp) and len(arg.generators) == 1 \
+            and isinstance(arg.elt, ast.Tuple) and len(arg.elt.elts) == 2:
+        g = arg.generators[0]
+        target, seq, ifs = g.target, g.iter, g.ifs
+        key, val = arg.elt.elts
+    if target is None:
+        return None
+    target = copy.deepcopy(target)
+    for n in ast.walk(target):
+        if isinstance(n, (ast.Name, ast.Tuple, ast.List)):
+            n.ctx = ast.Store()
+    body = [ast.Assign(targets=[ast.Subscript(value=copy.deepcopy(D), slice=key,
+                                              ctx=ast.Store())], value=val)]
+    for c in reversed(ifs):
+        body = [ast.If(test=c, body=body, orelse=[])]
+    loop = ast.For(target=target, iter=seq, body=body, orelse=[])
+    ast.copy_location(loop, st)
+    ast.fix_missing_locations(loop)
+    return loop
 
 
 def canon_block(block, in_loop=False, is_loop_body=False):
@@ -507,6 +556,9 @@ def canon_block(block, in_loop=False, is_loop_body=False):
             if any(isinstance(x, (ast.FunctionDef, ast.ClassDef)) for x in rest):
                 break
             st.orelse = canon_block(rest, in_loop, is_loop_body)
+            if st.orelse and _is_negative(st.test) and not (
+                    len(st.orelse) == 1 and isinstance(st.orelse[0], ast.If)):
+                st.test, st.body, st.orelse = negate(st.test), st.orelse, st.body
             out = out[:i + 1]
             break
     # `if c: continue|pass else: B` -> `if not c: B`
@@ -2389,6 +2441,16 @@ def std_spellings(tree):
                         body=ast.Subscript(value=ast.Name(id="item__g", ctx=ast.Load()),
                                            slice=n.args[0], ctx=ast.Load()))
                     return ast.copy_location(lam, n)
+            # operator.attrgetter('a', 'b')(X)  ->  (X.a, X.b)
+            if isinstance(n.func, ast.Call) and _unparse(n.func.func) == "operator.attrgetter" \
+                    and len(n.args) == 1 and not n.keywords and n.func.args \
+                    and _simple_arg(n.args[0]) and all(
+                        isinstance(a, ast.Constant) and isinstance(a.value, str)
+                        and a.value.isidentifier() for a in n.func.args):
+                attrs = [ast.Attribute(value=copy.deepcopy(n.args[0]), attr=a.value,
+                                       ctx=ast.Load()) for a in n.func.args]
+                new = attrs[0] if len(attrs) == 1 else ast.Tuple(elts=attrs, ctx=ast.Load())
+                return ast.copy_location(new, n)
             # functools.partial(F, A..)(B..)  ->  F(A.., B..)
             if isinstance(n.func, ast.Call) and _unparse(n.func.func) == "functools.partial" \
                     and n.func.args:
